@@ -257,6 +257,7 @@ type expectation struct {
 	ObjExcluded map[string]bool     // damaged, referenced only through fetchexclude'd paths: must not be checked
 	ObjIdxOnly  map[string]bool     // damaged and referenced only by index entries (not by a checked commit's tree)
 	Referenced  int
+	CanonOids   []string // non-empty objects named by a canonical pointer of the checked set (independent of the store; generator input for later rounds)
 	// pointers
 	PtrRequired  []ptrProblem    // must be named (by path or by blob id)
 	PtrPairs     map[string]bool // commit+"\x00"+path that may be named
@@ -294,6 +295,7 @@ func (ri *repoInfo) expect(as argSpec, fx []string, snap map[string]sbx.StoreEnt
 	// a commit of the range MAY be named.
 	type ref struct {
 		canonNew bool // canonical pointer blob that counts for "required"
+		canon    bool // named by some canonical pointer
 		paths    map[string]bool
 		size     int64
 	}
@@ -305,6 +307,9 @@ func (ri *repoInfo) expect(as argSpec, fx []string, snap map[string]sbx.StoreEnt
 			refs[oid] = r
 		}
 		r.paths[path] = true
+		if size >= 0 {
+			r.canon = true
+		}
 		if required {
 			r.canonNew = true
 		}
@@ -358,6 +363,9 @@ func (ri *repoInfo) expect(as argSpec, fx []string, snap map[string]sbx.StoreEnt
 		if oid == ptrspec.EmptyOid {
 			continue
 		}
+		if r.canon {
+			ex.CanonOids = append(ex.CanonOids, oid)
+		}
 		ent, present := snap["objects/"+oid[0:2]+"/"+oid[2:4]+"/"+oid]
 		bad := !present || ent.Sha != oid
 		if !bad {
@@ -389,6 +397,8 @@ func (ri *repoInfo) expect(as argSpec, fx []string, snap map[string]sbx.StoreEnt
 			ex.ObjAllowed[oid] = true
 		}
 	}
+
+	sort.Strings(ex.CanonOids)
 
 	// ---- pointers ----
 	// man page: no argument => HEAD (the index only for --objects); <commit> => that commit;
